@@ -1,4 +1,4 @@
-from checks import mibcompile, oidindex, atomicwrite
+from checks import mibcompile, oidindex, atomicwrite, searcher
 
 RULE_MC = ('scenario = terminal state of MibCompile.tla exported by TLC (request x lazily chosen answers of every '
            'component x options); non-trivial = at least one component answered with a failure / fresh / borrow; '
@@ -6,6 +6,22 @@ RULE_MC = ('scenario = terminal state of MibCompile.tla exported by TLC (request
 REGISTRY = {}
 for _p in ('C07', 'C08', 'C09', 'C10', 'C19'):
     REGISTRY[_p] = {'run': mibcompile.run, 'replay': mibcompile.replay, 'finish': {'rule': RULE_MC, 'exhaustive': True}}
+
+
+def _c10(out, prop, tier, seed, **kw):
+    mibcompile.run(out, prop, tier, seed, **kw)
+    if not kw.get('only_slices'):
+        searcher.run(out, prop, tier, seed)
+
+
+def _c10_replay(path):
+    import json
+    with open(path) as fh:
+        kind = json.load(fh)['replay'].get('kind')
+    return searcher.replay(path) if kind == 'searcher' else mibcompile.replay(path)
+
+
+REGISTRY['C10'] = {'run': _c10, 'replay': _c10_replay, 'finish': {'rule': RULE_MC + '; plus every directory configuration of Searcher.tla', 'exhaustive': True}}
 
 REGISTRY['C18'] = {'run': oidindex.run, 'replay': oidindex.replay, 'finish': {
     'rule': 'history = sequence of genIndex() calls exported from the terminal states of OidIndex.tla (every module summary over an OID universe with digit-sharing arcs); non-trivial = at least two OIDs involved; distinct by history', 'exhaustive': True}}
